@@ -143,6 +143,7 @@ PROPS = {
     "C06": entry("C06", ["c06_retracting_lost_increments", "c06_inst_never_decreases", "c06_sends_nondecreasing", "c06_sent_le_current",
                          "c06_send_after_start", "c06_lost_worker_increments", "c06_equal_resend_witness", "c06_reuse_witness",
                          "c06_started_unsent_witness", "c06_restart", "c06_restart_emitted", "c06_restart_reuse_witness",
+                         "c06_started_stays", "c06_mn_reject_witness",
                          "@HqModel.SysW.sysw_c06_single_partial"],
                  [core(["msg", "t", "rd", "w"], ["c06.", "core.hyp"]), journal(["c06.restart"]),
                   exhaust("core", ["msg", "t", "rd", "w"], ["c06.", "core.hyp"], qd=None),
@@ -175,7 +176,14 @@ PROPS = {
                          "@HqModel.SysW.sysw_fin_proto", "@HqModel.SysW.sysw_fin_proto_head", "@HqModel.SysW.sysw_fin_view",
                          "@HqModel.SysW.sysw_pipeline", "@HqModel.SysW.sysw_no_job_panic", "@HqModel.SysW.sysw_run_no_job_panic",
                          "@HqModel.SysW.sysw_started_running", "@HqModel.SysW.sysw_outcome_once", "@HqModel.SysW.sysw_inv",
-                         "@HqModel.Rpc.c09_conn_end_removes", "@HqModel.Rpc.c09_conn_end_resends"],
+                         "@HqModel.Rpc.c09_conn_end_removes", "@HqModel.Rpc.c09_conn_end_resends",
+                         # PROGRESS of the core model (Props/C09Core.lean, Lemmas/CoreNoPanic*.lean, notes/core_nopanic.md)
+                         "c09_core_step_no_panic", "c09_core_step_ok", "c09_core_inv_step", "c09_core_inv_reachable",
+                         "c09_core_run_no_panic", "c09_core_run_no_panic'", "c09_core_run_step_no_panic",
+                         "c09_mn_reject_no_panic'", "c09_mn_reject_no_panic_reachable'", "c09_core_f27_witness",
+                         # the F32 repair (Props/C09.lean)
+                         "c09_mn_shape_reachable", "c09_mn_reject_arm_no_panic", "c09_mn_reject_no_panic",
+                         "c09_mn_reject_no_panic_reachable"],
                  [job(["ev", "resp", "ret", "core", "job", "tasks", "live"], ["c09."]),
                   core(["msg", "cb", "flag", "t", "w", "q", "rd"], ["c09."]),
                   exhaust("core", ["msg", "cb", "flag", "t", "w", "q", "rd"], ["c09."]),
